@@ -118,46 +118,38 @@ func bypassConds(f *ssa.Function, calls []ssa.CallInstruction) []string {
 		}
 		return walk(b)
 	}
+	// canReachCall: from block x (inside the iteration) some call of the set is still reachable
+	canReachCall := func(x *ssa.BasicBlock) bool {
+		seenB := map[*ssa.BasicBlock]bool{}
+		var walk func(y *ssa.BasicBlock) bool
+		walk = func(y *ssa.BasicBlock) bool {
+			if y == h || seenB[y] || !body[y] {
+				return false
+			}
+			seenB[y] = true
+			for _, in := range y.Instrs {
+				if cut.Instrs[in] {
+					return true
+				}
+			}
+			for _, sx := range y.Succs {
+				if walk(sx) {
+					return true
+				}
+			}
+			return false
+		}
+		return walk(x)
+	}
 	for b := range body {
 		i, ok := b.Instrs[len(b.Instrs)-1].(*ssa.If)
 		if !ok || b == h {
 			continue
 		}
-		// the If itself must be reachable in the iteration before the call
-		t, e := reachesHeader(b.Succs[0]), reachesHeader(b.Succs[1])
-		if t != e {
-			arm := "true"
-			if e {
-				arm = "false"
-			}
-			// only conditions evaluated before the call in this iteration count: the call must be reachable
-			// from the test inside the loop body
-			pre := false
-			seenB := map[*ssa.BasicBlock]bool{}
-			var reachCall func(x *ssa.BasicBlock) bool
-			reachCall = func(x *ssa.BasicBlock) bool {
-				if x == h || seenB[x] || !body[x] {
-					return false
-				}
-				seenB[x] = true
-				for _, in := range x.Instrs {
-					if cut.Instrs[in] {
-						return true
-					}
-				}
-				for _, sx := range x.Succs {
-					if reachCall(sx) {
-						return true
-					}
-				}
-				return false
-			}
-			for _, sx := range b.Succs {
-				if reachCall(sx) {
-					pre = true
-				}
-			}
-			if pre {
+		// a decisive branch: one arm completes the iteration and can no longer reach the call, the other still can
+		for k, arm := range []string{"true", "false"} {
+			a, o := b.Succs[k], b.Succs[1-k]
+			if reachesHeader(a) && !canReachCall(a) && canReachCall(o) {
 				set[ssau.CondString(i.Cond)+"=="+arm] = true
 			}
 		}
